@@ -15,6 +15,7 @@ both acceptable) and excluded from the comparison.  That the supervisor reconnec
 returns is C07.
 -/
 import SmppVerif.Lemmas.Keeper
+import SmppVerif.Gen.Site
 
 namespace SmppVerif.Props.C16
 open SmppVerif.Keeper SmppVerif.Lemmas.Keeper
@@ -50,6 +51,11 @@ theorem live_peer_kept (I T : Nat) (arr : List Nat) (s : Nat) (h : Gaps (I + T) 
 example : Gaps (10 + 5) 0 [10, 14, 28] := by simp [Gaps]
 example : keeper 10 5 0 [10, 14, 28] = ([10, 24, 38], some 43) := by decide
 
+/-- tie to the source (Gen/Site.lean): the Receiver signals the keeper (`_data_received.set()`) right after `_get_pdu`
+    returned, before the PDU is handed to a handler or a hook -/
+theorem receive_step_order :
+    Gen.Site.receiveData = ["_get_pdu", "set", "pdu_handler", "received", "received", "_send_data"] := by decide
+
 end SmppVerif.Props.C16
 
 #print axioms SmppVerif.Props.C16.probe_on_idle
@@ -57,3 +63,4 @@ end SmppVerif.Props.C16
 #print axioms SmppVerif.Props.C16.probes_at_restarts
 #print axioms SmppVerif.Props.C16.dead_peer_dropped
 #print axioms SmppVerif.Props.C16.live_peer_kept
+#print axioms SmppVerif.Props.C16.receive_step_order
